@@ -14,8 +14,19 @@ static uint64_t evals;
 static e1_cfg pseudo;
 static size_t P;            /* per-frame payload capacity */
 static int pre_code;        /* 0: fresh responder; 1..3: another station (M2) is the active mapper (Discover [, its own QueryLargeTlv [, Query]]) */
+static int request(uint8_t type, size_t size, uint16_t off, uint16_t seq, uint8_t tos, int bridged, int *more_out, int known);
 static void pre_steps(int code, uint8_t type, uint8_t tos) {
     if (!code) return;
+    if (code == 6) {      /* a transfer is under way (first chunk fetched by mapper M1 after its Discover); M1 sends another Discover with a new
+                           * generation (no Reset), and the platform's icon is replaced: the continuation must still be the icon the transfer began with */
+        int saved = pre_code; pre_code = 0;
+        pev d = ev_discover(tos, ST_M1, ST_M1, 0x0101, 1); vf_trace_clear(); drv_linux(&d, 0);
+        request(type, type == 0x0E ? W.host.icon_size : W.host.fname_size, 0, 0x0301, tos, 0, NULL, 1);
+        pev d2 = ev_discover(tos, ST_M1, ST_M1, 0x0202, 2); vf_trace_clear(); drv_linux(&d2, 0);
+        W.env.icon_epoch = 1;
+        pre_code = saved;
+        return;
+    }
     pev d = ev_discover(0, ST_M2, ST_M2, 0x0707, 0x0222); vf_trace_clear(); drv_linux(&d, 0);
     if (code >= 2) { pev q = ev_qlt(tos, ST_M2, ST_M2, 0x0333, type, 0); vf_trace_clear(); drv_linux(&q, 0); }
     if (code == 3) { pev q = ev_query(0, ST_M2, ST_M2, 0x0444); vf_trace_clear(); drv_linux(&q, 0); }
@@ -111,7 +122,7 @@ static void ps_apply(int ev) {
     vf_world_reset();
     set_blob(0x0E, 3000); set_blob(0x11, 3000); set_blob(0x13, 40);
     set_blob((uint8_t)staged[0], (size_t)staged[1]);
-    if (staged[7] >= 4) {      /* earlier in this session the getter failed (4) / the property was empty (5) at a first request */
+    if (staged[7] == 4 || staged[7] == 5) {      /* earlier in this session the getter failed (4) / the property was empty (5) at a first request */
         int saved = pre_code; pre_code = 0;
         if (staged[7] == 4) { if (staged[0] == 0x0E) W.host.icon_ok = 0; else W.host.fname_ok = 0; } else set_blob((uint8_t)staged[0], 0);
         request((uint8_t)staged[0], 0, 0, 0x0201, 0, 0, NULL, 1);
@@ -189,6 +200,13 @@ int main(int argc, char **argv) {
             set_blob(ty[ti], size);                               /* the platform recovers / the property appears */
             pre_code = 4 + how;
             reassemble(ty[ti], size);
+            pre_code = 0;
+        }
+        /* a Discover of the same mapper with a new generation in the middle of an icon transfer, icon replaced meanwhile */
+        for (int tos = 0; tos < 2; tos++) {
+            vf_world_reset(); set_blob(0x0E, 3000); set_blob(0x11, 3000);
+            pre_code = 6; pre_steps(6, 0x0E, (uint8_t)tos);
+            for (size_t off = P; off < 3000; off += P) request(0x0E, 3000, (uint16_t)off, (uint16_t)(0x0310 + off / P), (uint8_t)tos, 0, NULL, 1);
             pre_code = 0;
         }
         /* two stations: M2 is the active mapper (accepted Discover, own sequence numbers), then M1 requests a
